@@ -228,7 +228,7 @@ def h_deal(ctx: Any, code: str, n: int, sym_decisions: int = 2, manual: str = 'c
         )
     cm = CardMonitor(ctx, exact=not explicit)
     dm = DealMonitor(ctx)
-    dm.one_at_a_time = manual != 'counts'
+    dm.one_at_a_time = manual not in ('counts', 'late-counts')
 
     def mon(state: Any, op: Any) -> None:
         if which in ('both', 'cards'):
@@ -280,6 +280,10 @@ def h_deal(ctx: Any, code: str, n: int, sym_decisions: int = 2, manual: str = 'c
                         else:
                             C.call(ctx, st.deal_hole, (st.deck_cards[-1],))
                     elif manual == 'counts' and left > 1 and budget['count'] > 0:
+                        budget['count'] -= 1
+                        C.call(ctx, st.deal_hole, 1 + ctx.choice(f'hc{guard}', left))
+                    elif manual == 'late-counts' and left > 1 and len(st.deck_cards) < 6 and budget['count'] > 0:
+                        # several engine-chosen cards in ONE call while the deck is (almost) exhausted
                         budget['count'] -= 1
                         C.call(ctx, st.deal_hole, 1 + ctx.choice(f'hc{guard}', left))
                     else:
@@ -363,6 +367,8 @@ JOBS = [
     ('NR/n3/one-by-one', dict(code='NR', n=3, sym_decisions=3, manual='one')),
     ('N2L1D/n3/masks', dict(code='N2L1D', n=3, sym_decisions=2, manual='one')),
     ('F2L3D/n4/exhaustion', dict(code='F2L3D', n=4, sym_decisions=0, manual='auto', mask_budget=4, fixed_mask=3)),
+    ('F2L3D/n4/exhaustion/counts', dict(code='F2L3D', n=4, sym_decisions=0, manual='late-counts', mask_budget=0, fixed_mask=3,
+                                        count_budget=6)),
     ('F2L3D/n6/exhaustion', dict(code='F2L3D', n=6, sym_decisions=1, manual='auto', mask_budget=2, fixed_mask=3)),
     ('FB/n3/masks', dict(code='FB', n=3, sym_decisions=1, manual='auto', mask_budget=4)),
     ('F7S/n3/counts', dict(code='F7S', n=3, sym_decisions=2, manual='counts', count_budget=5)),
